@@ -43,7 +43,11 @@ def main(argv):
         if replay:
             return mod.replay(replay)
         if selftest:
-            return mod.selftest(lib.Check(prop, tier, seed))
+            if hasattr(mod, "selftest"):
+                return mod.selftest(lib.Check(prop, tier, seed))
+            print(f"{prop}: binding / non-vacuity self-tests run inside every check (synthetic canaries that the TLA+ oracle must reject, "
+                  "controls it must accept, deliberately broken design variants TLC must reject); use bin/mutscratch for source mutants")
+            return 0
         chk = lib.Check(prop, tier, seed)
         return mod.main(chk)
     except lib.MachineryError as e:
